@@ -7,8 +7,11 @@ import (
 	"encoding/json"
 	"fmt"
 	"math"
+	"strings"
 
 	"github.com/biogo/biogo/alphabet"
+	"github.com/biogo/biogo/seq/linear"
+	"github.com/biogo/biogo/seq/quality"
 	"verif/h/enum"
 )
 
@@ -16,7 +19,9 @@ type kase struct {
 	Kind string `json:"kind"`
 	Enc  int    `json:"enc"`
 	V    int    `json:"v"`
-	D    int    `json:"d"` // offset index for probability grid
+	D    int    `json:"d"`              // offset index for probability grid
+	Enc2 int    `json:"enc2,omitempty"` // container histories: the encoding the container had before SetEncoding(Enc)
+	Via  string `json:"via,omitempty"`  // container histories: "", "clone" (the history continues on a copy)
 }
 
 var encNames = map[alphabet.Encoding]string{alphabet.None: "None", alphabet.Sanger: "Sanger", alphabet.Solexa: "Solexa",
@@ -94,6 +99,102 @@ func check(c *enum.Ctx, k kase) (nontrivial bool) {
 		}
 		if got := alphabet.Solexa.DecodeToQsolexa(enc); int(got) != k.V {
 			fail("DecodeToQsolexa/Solexa", "Solexa.DecodeToQsolexa(Qsolexa(%d).Encode(Solexa)=%d) = %d", k.V, enc, got)
+		}
+		return true
+	case "phred-container", "qseq-container": // the same laws through quality.Phred / linear.QSeq, after an encoding history
+		// history: built with encoding Enc2, encoded once (whatever it caches is now built), optionally
+		// copied, switched to Enc with SetEncoding; then encode / decode / error probability of score V
+		e2 := alphabet.Encoding(k.Enc2)
+		b := k.V + offset(e)
+		if !printable(e, b) || k.V > 253 {
+			return false
+		}
+		var enc byte
+		var dec alphabet.Qphred
+		var pe float64
+		var line string
+		var reported alphabet.Encoding
+		if c.Guard(k.Kind+"/panic", k, func() {
+			if k.Kind == "phred-container" {
+				p := quality.NewPhred("p", []alphabet.Qphred{alphabet.Qphred(k.V), 7}, e2)
+				p.Offset = 3
+				_ = p.QEncode(3)
+				if k.Via == "clone" {
+					p = p.Copy().(*quality.Phred)
+				}
+				p.SetEncoding(e)
+				enc, dec, pe, reported = p.QEncode(3), p.QDecode(byte(b)), p.EAt(3), p.Encoding()
+				return
+			}
+			q := linear.NewQSeq("q", []alphabet.QLetter{{L: 'a', Q: alphabet.Qphred(k.V)}, {L: 'c', Q: 7}}, alphabet.DNA, e2)
+			q.Offset = 3
+			_ = q.QEncode(3)
+			_ = fmt.Sprintf("%q", q)
+			if k.Via == "clone" {
+				q = q.Clone().(*linear.QSeq)
+			}
+			q.SetEncoding(e)
+			enc, dec, pe, reported = q.QEncode(3), q.Encode.DecodeToQphred(byte(b)), q.EAt(3), q.Encoding()
+			line = fmt.Sprintf("%q", q)
+		}) {
+			return true
+		}
+		hist := fmt.Sprintf("built as %s, encoded, %sSetEncoding(%s)", encNames[e2], map[string]string{"": "", "clone": "copied, "}[k.Via], encNames[e])
+		if reported != e {
+			fail(k.Kind+"/Encoding", "%s: Encoding() = %s", hist, encNames[reported])
+		}
+		if int(enc) != b {
+			fail(k.Kind+"/QEncode/"+encNames[e], "%s: QEncode of score %d = %d, want %d", hist, k.V, enc, b)
+		}
+		if int(dec) != k.V {
+			fail(k.Kind+"/QDecode/"+encNames[e], "%s: decoding byte %d = %d, want %d", hist, b, dec, k.V)
+		}
+		if want := math.Pow(10, -float64(k.V)/10); relErr(pe, want) > 1e-12 {
+			fail(k.Kind+"/EAt", "%s: EAt = %g for score %d, want %g", hist, pe, k.V, want)
+		}
+		if k.Kind == "qseq-container" {
+			// %q renders a FASTQ record: the quality line is the last line
+			ls := strings.Split(strings.TrimRight(line, "\n"), "\n")
+			if ql := ls[len(ls)-1]; len(ql) != 2 || int(ql[0]) != b {
+				fail("qseq-container/format/"+encNames[e], "%s: %%q renders quality line %q for scores [%d 7], want first byte %d", hist, ql, k.V, b)
+			}
+		}
+		return true
+	case "solexa-container":
+		b := k.V + 64
+		if !printable(alphabet.Solexa, b) {
+			return false
+		}
+		var enc byte
+		var dec alphabet.Qsolexa
+		var pe float64
+		var back alphabet.Qsolexa
+		if c.Guard("solexa-container/panic", k, func() {
+			p := quality.NewSolexa("s", []alphabet.Qsolexa{alphabet.Qsolexa(k.V), 7}, alphabet.Encoding(k.Enc2))
+			p.Offset = 3
+			_ = p.QEncode(3)
+			if k.Via == "clone" {
+				p = p.Copy().(*quality.Solexa)
+			}
+			p.SetEncoding(alphabet.Solexa)
+			enc, dec, pe = p.QEncode(3), p.QDecode(byte(b)), p.EAt(3)
+			p.SetE(4, pe)
+			back = p.At(4)
+		}) {
+			return true
+		}
+		hist := fmt.Sprintf("quality.Solexa built as %s, encoded, %sSetEncoding(Solexa)", encNames[alphabet.Encoding(k.Enc2)], map[string]string{"": "", "clone": "copied, "}[k.Via])
+		if int(enc) != b {
+			fail("solexa-container/QEncode", "%s: QEncode of score %d = %d, want %d", hist, k.V, enc, b)
+		}
+		if int(dec) != k.V {
+			fail("solexa-container/QDecode", "%s: QDecode(%d) = %d, want %d", hist, b, dec, k.V)
+		}
+		if want := 1 / (1 + math.Pow(10, float64(k.V)/10)); relErr(pe, want) > 1e-12 {
+			fail("solexa-container/EAt", "%s: EAt = %g for score %d, want %g", hist, pe, k.V, want)
+		}
+		if int(back) != k.V {
+			fail("solexa-container/SetE", "%s: SetE(EAt) of score %d stored %d", hist, k.V, back)
 		}
 		return true
 	case "byte-decode-encode": // encode(decode(b)) = b for printable bytes
@@ -241,7 +342,7 @@ func check(c *enum.Ctx, k kase) (nontrivial bool) {
 }
 
 func run(c *enum.Ctx) {
-	c.Rule("complete enumeration: kind x encoding x all 256 values (x 5 offsets for the probability grids); a case is non-trivial when the oracle applies (value inside the printable/representable range the statement names); distinct by (kind,encoding,value,offset)")
+	c.Rule("complete enumeration: kind x encoding x all 256 values (x 5 offsets for the probability grids); the same encode/decode/probability laws through quality.Phred, quality.Solexa and linear.QSeq (QEncode, QDecode, EAt, SetE, %q) after every two-step encoding history (built with encoding A, encoded once, optionally copied, SetEncoding(B)) x all values; a case is non-trivial when the oracle applies (value inside the printable/representable range the statement names); distinct by (kind,encoding,value,offset)")
 	c.Assume("printable range: bytes 33..126 (Illumina1_5: 'B'..126; Solexa: 59..126, i.e. scores from -5)", "sentinel scores 254/255 (Phred) and 127/-128 (Solexa) are excluded", "math.Pow/math.Log10 of this Go toolchain are the analytic reference (1e-12 relative tolerance)")
 	add := func(k kase) {
 		c.Eval()
@@ -263,6 +364,19 @@ func run(c *enum.Ctx) {
 		}
 		for e := alphabet.None; e <= alphabet.Illumina1_9; e++ {
 			add(kase{Kind: "byte-decode-encode", Enc: int(e), V: v})
+		}
+		for _, e := range phredEnc {
+			for _, e2 := range append([]alphabet.Encoding{alphabet.Solexa}, phredEnc...) {
+				for _, via := range []string{"", "clone"} {
+					add(kase{Kind: "phred-container", Enc: int(e), Enc2: int(e2), Via: via, V: v})
+					add(kase{Kind: "qseq-container", Enc: int(e), Enc2: int(e2), Via: via, V: v})
+				}
+			}
+		}
+		for _, e2 := range []alphabet.Encoding{alphabet.Solexa, alphabet.Sanger, alphabet.Illumina1_3} {
+			for _, via := range []string{"", "clone"} {
+				add(kase{Kind: "solexa-container", Enc2: int(e2), Via: via, V: v - 128})
+			}
 		}
 		add(kase{Kind: "phred-probe", V: v})
 		add(kase{Kind: "solexa-probe", V: v})
